@@ -375,7 +375,6 @@ type vfCaseC12Race struct {
 	Order   []int
 }
 
-
 func vfGenC12Race(t *rapid.T) vfCaseC12Race {
 	c := vfCaseC12Race{Opts: vfGenSmallOpts(t)}
 	ng := rapid.IntRange(2, 4).Draw(t, "workers")
